@@ -1,6 +1,9 @@
 /- Driver handler owned by property C03: `c03 <args…>` requests.
 
    `c03 check <nums…>`  → `ok <blocks>` | `reject <block> <reason> <var> <def-block> <status> <is-aggregate-temp> <is-call-argument>` | `bad-dump`
+        (both verified checkers: `ownCheck`, then `varCheck`; a rejection of the second has the reason
+        `variant-read`, the variable read through a variant, and the status `V<variant read>/<variant known or ->`)
+   `c03 vcert <nums…>`  → the certificate of known variants proposed by the untrusted search (one line)
    `c03 lean <nums…>`   → the item as a Lean term (one line)
    `c03 exec <fuel> <oracle,…> <nums…>` → concrete run of the token semantics from
         `initC` (all parameter variants 0): `done <var>` | `fail <err>` | `running <label>`
@@ -15,6 +18,7 @@
         its clone function: `C<decl> v<k>: v<src>>r<dst>/kind | v<src>>r<dst>#<memcpy size> …` -/
 import Driver.Util
 import RotoV.Model.Mir
+import RotoV.Model.MirVariant
 import RotoV.Model.Glue
 import RotoV.Generated.GlueLoops
 
@@ -360,8 +364,20 @@ def handle (args : List String) : String :=
     | none => "bad-dump"
     | some it =>
       match analyse it with
-      | .ok cert => s!"ok {cert.length}"
+      | .ok cert =>
+        match vanalyse it with
+        | .ok _ => s!"ok {cert.length}"
+        | .reject l x v kn =>
+          let known := match kn with | some k => toString k | none => "-"
+          s!"reject {l} variant-read {x} {defBlock it x} V{v}/{known} 0 0"
       | .reject l r a o => s!"reject {l} {r} {detail it l r a o}"
+  | "vcert" :: ws =>
+    match parseItem ws with
+    | none => "bad-dump"
+    | some it =>
+      match vanalyse it with
+      | .ok cert => oneLine (toString (repr cert))
+      | .reject _ _ _ _ => "[]"
   | "trace" :: ws =>
     match parseItem ws with
     | none => "bad-dump"
